@@ -57,6 +57,76 @@ static echs_evstrm_t mkstrm(const char *uid, const char *times, echs_oid_t *oid)
 	/* the task is leaked on purpose: its stream now belongs to the mux */
 	return t->strm;
 }
+/* rule mode: one event of several RRULEs is itself a merge (of the streams of its rules).  Line:
+ *    R <TAB> dtstart-property-line <TAB> rule|rule|... <TAB> ops
+ * The constituents are what each rule delivers in an event of its own (same DTSTART line, recorded here by following that event's
+ * stream to its end), the merge under test is the stream of the event holding all the rules.  Times are reported in the code of
+ * the other mode (January 2030: (day - 1) * 100000 + second of the day, all-day 0; -1 outside January 2030). */
+static echs_evstrm_t evstrm_of(const char *ics, size_t z)
+{
+	ical_parser_t pp = NULL; echs_task_t t = NULL; echs_instruc_t ins;
+	if (echs_evical_push(&pp, ics, z) < 0) return NULL;
+	while ((ins = echs_evical_pull(&pp)).v == INSVERB_SCHE) if (ins.t) t = ins.t;
+	ins = echs_evical_last_pull(&pp);
+	if (ins.v == INSVERB_SCHE && ins.t) t = ins.t;
+	return t ? t->strm : NULL;
+}
+static int tcode(echs_instant_t x)
+{
+	return (x.y == 2030 && x.m == 1) ? (int)(x.d - 1) * 100000 + (echs_instant_all_day_p(x) ? 0 : (int)(x.H * 3600 + x.M * 60 + x.S)) : -1;
+}
+static void rule_mode(char *line)
+{
+	char *dtl = line + 2, *rules = strchr(dtl, '\t'), *ops;
+	if (!rules) return; *rules++ = 0;
+	if (!(ops = strchr(rules, '\t'))) return; *ops++ = 0;
+	static char all[8192], ics[8192]; size_t za = 0; int bad = 0;
+	za += sprintf(all + za, "BEGIN:VCALENDAR\nBEGIN:VEVENT\nUID:r\nSUMMARY:x\n%s\n", dtl);
+	fputs("{\"e\":\"MuxRun\",\"rulemode\":true,\"cons\":[", o);
+	nd_crashed = 0;
+	if (!sigsetjmp(nd_jb, 1)) {
+		char *save = NULL; int k = 0;
+		alarm(5);
+		for (char *r = strtok_r(rules, "|", &save); r; r = strtok_r(NULL, "|", &save), k++) {
+			za += sprintf(all + za, "RRULE:%s\n", r);
+			size_t z = sprintf(ics, "BEGIN:VCALENDAR\nBEGIN:VEVENT\nUID:r\nSUMMARY:x\n%s\nRRULE:%s\nEND:VEVENT\nEND:VCALENDAR\n", dtl, r);
+			echs_evstrm_t s1 = evstrm_of(ics, z);
+			if (k) fputc(',', o);
+			fputc('[', o);
+			if (!s1) bad = 1;
+			else for (int i = 0; i < 2000; i++) {
+				echs_event_t e = echs_evstrm_pop(s1);
+				if (echs_nul_event_p(e)) break;
+				fprintf(o, "%s[%d,\"r\"]", i ? "," : "", tcode(e.from));
+			}
+			fputc(']', o);
+		}
+		alarm(0);
+	}
+	alarm(0);
+	fprintf(o, "],\"ops\":[");
+	for (char *q = ops; *q; q++) fprintf(o, "%s\"%c\"", q == ops ? "" : ",", *q);
+	fputs("],\"res\":[", o);
+	if (!nd_crashed && !sigsetjmp(nd_jb, 1)) {
+		alarm(5);
+		za += sprintf(all + za, "END:VEVENT\nEND:VCALENDAR\n");
+		echs_evstrm_t mux = evstrm_of(all, za);
+		if (!mux) bad = 1;
+		for (char *q = ops; *q; q++) {
+			echs_event_t e = {.from = {.u = 0}};
+			if (mux) e = *q == 'P' ? echs_evstrm_pop(mux) : echs_evstrm_next(mux);
+			if (q != ops) fputc(',', o);
+			if (echs_nul_event_p(e)) fputs("[]", o);
+			else fprintf(o, "[%d,\"r\"]", tcode(e.from));
+		}
+		alarm(0);
+	}
+	alarm(0);
+	fputs("]", o);
+	if (nd_crashed) fprintf(o, ",\"crash\":%d", nd_crashed);
+	if (bad) fputs(",\"badparse\":true", o);
+	fputs("}\n", o);
+}
 int main(void)
 {
 	o = stdout; static char obuf[1 << 20]; setvbuf(o, obuf, _IOFBF, sizeof(obuf));
@@ -64,6 +134,7 @@ int main(void)
 	char *line = NULL; size_t cap = 0; ssize_t n;
 	while ((n = getline(&line, &cap, stdin)) > 0) {
 		if (line[n - 1] == '\n') line[--n] = 0;
+		if (line[0] == 'R' && line[1] == '\t') { rule_mode(line); continue; }
 		char *ops = strchr(line, '\t'); if (!ops) continue; *ops++ = 0;
 		char names[16][32]; echs_oid_t oids[16]; size_t ns = 0;
 		echs_evstrm_t *ss = malloc(16 * sizeof(*ss));
